@@ -68,7 +68,7 @@ Verdict(T) ==
         ws == [t \in txs |-> OWs(E, t, Len(E))]
         order == OOrder(E)
         C == Range(order)
-        r == Replay(InitS(keys, T.ntx), E, 1, T.level, Range(T.dev))
+        r == Replay(InitS(keys, T.ntx, T.level), E, 1, T.level, Range(T.dev))
         same == IF r.bad = 0 /\ r.s.store = final THEN 1 ELSE 0
         badsi == { t \in C : ~SnapshotReads(t, order, ext, ws, init) }
     IN IF T.level = "ser" /\ ~Serializable(C, ext, ws, init, final) THEN <<"PROP:not_serializable", 0, same>>
@@ -78,7 +78,7 @@ Verdict(T) ==
        ELSE IF r.s.store # final THEN <<"MODEL:state", 0, 0>>
        ELSE <<"ACCEPT", 0, 1>>
 
-TInit == ti = 1 /\ S = InitS({}, 0) /\ ev = <<>>
+TInit == ti = 1 /\ S = InitS({}, 0, "ser") /\ ev = <<>>
 TNext ==
     /\ ti <= NTr
     /\ LET v == Verdict(Traces[ti]) IN PrintT(<<"V", Traces[ti].id, v[1], v[2], v[3]>>)
